@@ -4,6 +4,7 @@ import json
 import logging
 import math
 import os
+import random
 from fractions import Fraction as F
 
 import numpy as np
@@ -202,6 +203,7 @@ class CHECK(Check):
 
     # ---------------------------------------------------------------- generation
     def generate(self, rng, tier):
+        n_yield = 0
         while True:
             n = rng.choice([6, 7, 8, 8, 9, 10, 10, 12, 14, 16])
             k = rng.choice([2, 3, 3, 4, 4, 5])
@@ -227,7 +229,8 @@ class CHECK(Check):
             moment = rng.choice(["DP", "DP", "TPR", "FPR", "EO", "EO", "ERP"])
             ratio = rng.choice([None, None, None, "1/2", "4/5", "1"])
             kind = "all" if k <= 4 or rng.random() < 0.5 else "threshold"
-            yield {"x": x, "y": y, "g": g, "moment": moment, "ratio": ratio,
+            n_yield += 1
+            case = {"x": x, "y": y, "g": g, "moment": moment, "ratio": ratio,
                    "bound": rng.choice(["0", "1/100", "1/100", "1/20", "1/10", "1/4"]),
                    "eps": rng.choice(["1/4", "1/10", "1/20", "1/50", "1/100", "1/100"]),
                    "max_iter": rng.choice([1, 2, 3, 5, 6, 7, 8, 10, 15, 20, 30, 50, 50]),
@@ -236,6 +239,13 @@ class CHECK(Check):
                    "linprog": rng.random() < 0.6, "kind": kind if rng.random() < 0.8 else "threshold",
                    "container": rng.choice(["df", "df", "np", "list"]),
                    "sel": self._gen_sel(rng)}
+            yield case
+            if n_yield % 8 == 0:
+                # "long run" twin of every 8th case (derived without touching the rng stream): no early break, so the regret
+                # checks at t = 8, 13, 21, 34 and the eta shrink are reached, the LP cache is hit, classifiers accumulate
+                r2 = random.Random(json.dumps(case, sort_keys=True))
+                yield dict(case, max_iter=r2.choice([14, 22, 35]), nu="1/100000", eps=r2.choice(["1/50", "1/100"]),
+                           bound=r2.choice(["0", "1/100"]), linprog=r2.random() < 0.5)
 
     @staticmethod
     def _gen_sel(rng):
